@@ -342,21 +342,64 @@ def r5_insertion(ctx):
     yield Ob('x12context:X12DataNode._get_insert_idx goes after siblings of the same or an earlier map position', bad is None, ctx.floc(f),
              '' if bad is None else 'with siblings at map positions %s a node of position %s is inserted at index %s; the map orders it at index %s' % bad,
              note='%d combinations' % runs)
-    for q, var in (('X12LoopDataNode.add_segment', 'x12_seg_node'), ('X12LoopDataNode.add_node', 'data_node.x12_map_node'), ('X12LoopDataNode._add_loop_node', 'x12_loop_node')):
+    # the three adders, decided by constant propagation with that index function as the oracle: whatever the children are
+    # (nothing, only segments, a trailer segment last, loops last, a tombstone last) the new node ends up after its
+    # same-or-earlier siblings and before the later ones, every other child where it was
+    from ..absint import explore, run_function
+
+    def idx_oracle(env, node):
+        return run_function(g, f, [None, node], {}, env={'self.children': env.get('self.children')})
+    idx_oracle._wants_env = True
+
+    class _New(object):
+        _sa_model = True
+
+        def __init__(self, pos):
+            self.x12_map_node = _Pos(pos, 'NEW')
+            self.x12_map_node.parent = 'LOOP'
+            self.type = 'loop'
+            self.parent = None
+    shapes = ((), (10,), (10, 30), (10, 20, 30), (10, 20, 20), (20, 20, 30), (30,), (10, 20, 20, 30, 30))
+    for q in ('X12LoopDataNode.add_segment', 'X12LoopDataNode.add_node', 'X12LoopDataNode._add_loop_node'):
         fn = ctx.func('x12context', q)
-        gi = [c for c in A.calls_in(fn) if A.call_target(c) == ('self', '_get_insert_idx')]
-        ins = [c for c in A.calls_in(fn) if A.call_target(c) == ('self.children', 'insert')]
-        ok = False
-        if len(gi) == 1 and len(ins) == 1 and isinstance(ins[0].args[0], ast.Name):
-            # the index inserted at is the one _get_insert_idx returned (held in a local bound once) ...
-            defs = [st for st in ast.walk(fn) if isinstance(st, ast.Assign) and len(st.targets) == 1 and path_of(st.targets[0]) == ins[0].args[0].id]
-            idx_ok = len(defs) == 1 and defs[0].value is gi[0]
-            # ... for the map node of the very node that is inserted
-            arg = norm(gi[0].args[0])
-            arg_ok = arg in (var, norm(ins[0].args[1]) + '.x12_map_node')
-            ok = idx_ok and arg_ok
-        yield Ob('x12context:%s inserts at the index computed for the node\'s own map position' % q, ok, ctx.floc(fn),
-                 '' if ok else 'index from %s, insert at %s' % ([norm(c) for c in gi], [norm(c) for c in ins]))
+        ga = ctx.cfg(fn)
+        bad = None
+        runs = 0
+        for poss in shapes:
+            for newpos in (5, 20, 30, 40):
+                kids = tuple(_Sib(i, p_) for i, p_ in enumerate(poss))
+                new = _New(newpos)
+                mapnode = new.x12_map_node
+                env = {'self.children': kids, 'self': 'SELF', 'self.x12_map_node': 'LOOP', 'self.id': 'LOOPID',
+                       'data_node': new, 'x12_loop_node': mapnode, 'seg_data': 'SEG'}
+                funcs = {'self._get_insert_idx': idx_oracle, 'X12DataNode._get_insert_idx': idx_oracle,
+                         'X12LoopDataNode': lambda *a_: new, 'X12SegmentDataNode': lambda *a_: new,
+                         'self._get_segment': lambda s_: s_, 'self.x12_map_node.get_child_seg_node': lambda s_: mapnode,
+                         'self._cleanup': lambda: None}
+                finals = []
+
+                def on_node(nd, e, ga=ga):
+                    if nd is ga.exit:
+                        finals.append(e.get('self.children'))
+
+                def unk(nd, e):
+                    raise AnalysisError('%s: a test cannot be decided: %s' % (q, norm(nd.ast)))
+                try:
+                    explore(ga, env, funcs=funcs, on_node=on_node, on_unknown=unk)
+                except A.NotClosed as e:
+                    raise AnalysisError('%s cannot be decided: %s' % (q, e))
+                runs += 1
+                at = max([i + 1 for i, p_ in enumerate(poss) if p_ <= newpos] or [0])
+                want = kids[:at] + (new,) + kids[at:]
+                for fin in finals:
+                    if fin != want and bad is None:
+                        where = list(fin).index(new) if isinstance(fin, tuple) and new in fin else None
+                        bad = (list(poss), newpos, where, at)
+                if not finals and bad is None:
+                    bad = (list(poss), newpos, 'nowhere', at)
+        yield Ob("x12context:%s inserts at the index computed for the node's own map position" % q, bad is None, ctx.floc(fn),
+                 '' if bad is None else 'with children at map positions %s a new node of position %s ends up at index %s; the map orders it at index %s' % bad,
+                 note='%d combinations' % runs)
     # membership checks of add_segment / add_loop / add_node
     fn = ctx.func('x12context', 'X12LoopDataNode.add_segment')
     ok = 'get_child_seg_node(seg_data)' in ast.unparse(fn) and 'raise errors.X12PathError' in ast.unparse(fn)
